@@ -20,14 +20,17 @@ import (
 	"testing"
 	"time"
 
+	_ "mosn.io/mosn/pkg/stream/http"
+	_ "mosn.io/mosn/pkg/stream/http2"
 	"mosn.io/mosn/pkg/verifrt/vreport"
 	"mosn.io/mosn/pkg/verifrt/vrt"
 )
 
-func c03hScenarios() []hhScenario {
+func c03hScenarios(proto string) []hhScenario {
 	var out []hhScenario
+	h1 := proto == "Http1"
 	add := func(sc hhScenario) {
-		sc.Proto = "Http1"
+		sc.Proto = proto
 		sc.Name = hhScenarioName(&sc)
 		out = append(out, sc)
 	}
@@ -108,9 +111,22 @@ func c03hScenarios() []hhScenario {
 		}
 		add(sc)
 	}
-	add(hhScenario{Hosts: 1, RouteTimeoutMs: 1000, Requests: one(hhOKConnClose)})
+	if h1 {
+		add(hhScenario{Hosts: 1, RouteTimeoutMs: 1000, Requests: one(hhOKConnClose)})
+		add(hhScenario{Hosts: 1, RouteTimeoutMs: 1000, Requests: []hhRequest{{Token: "t1", Close: true, Script: []string{hhOK}}}})
+	} else {
+		// HTTP/2 specific endings: stream reset by the upstream, replies on finished / unknown streams
+		for _, retry := range []bool{false, true} {
+			sc := hhScenario{Hosts: 2, RouteTimeoutMs: 1000, RetryOn: retry, Requests: one(hhRst, hhOK)}
+			if retry {
+				sc.NumRetries = 1
+			}
+			add(sc)
+		}
+		add(hhScenario{Hosts: 1, RouteTimeoutMs: 1000, Requests: one(hhOKPlusExtra)})
+		add(hhScenario{Hosts: 1, RouteTimeoutMs: 1000, Requests: one(hhUnknownOK)})
+	}
 	add(hhScenario{Hosts: 1, RouteTimeoutMs: 1000, Requests: one(hhOKThenClose)})
-	add(hhScenario{Hosts: 1, RouteTimeoutMs: 1000, Requests: []hhRequest{{Token: "t1", Close: true, Script: []string{hhOK}}}})
 	// a reply that races the per-try / the global timer
 	for _, retry := range []bool{false, true} {
 		sc := hhScenario{Hosts: 2, RouteTimeoutMs: 1000, TryTimeoutMs: 100, RetryOn: retry, Requests: one(hhOKAtTry, hhOK)}
@@ -122,6 +138,9 @@ func c03hScenarios() []hhScenario {
 	add(hhScenario{Hosts: 1, RouteTimeoutMs: 1000, Requests: one(hhOKAtGlobal)})
 	// keep-alive: the outcome of request 1 must not cost request 2 its reply
 	for _, f := range []string{hhOK, hhErr, hhClose, hhSilent, hhOKConnClose, hhOKThenClose} {
+		if !h1 && f == hhOKConnClose {
+			continue
+		}
 		add(hhScenario{Hosts: 1, RouteTimeoutMs: 1000, TryTimeoutMs: 100, Requests: []hhRequest{{Token: "t1", Script: []string{f}}, {Token: "t2", Body: true, Script: []string{hhOK}}}})
 	}
 	add(hhScenario{Hosts: 1, RouteTimeoutMs: 1000, Pipelined: true, Requests: []hhRequest{{Token: "t1", Script: []string{hhOK}}, {Token: "t2", Body: true, Script: []string{hhOK}}}})
@@ -146,7 +165,7 @@ func c03hCore(sc *hhScenario) bool {
 // status a scripted upstream outcome produces downstream when it is the terminal cause (request index i)
 func c03hStatusOf(act string, i int) []int {
 	switch act {
-	case hhOK, hhOKNoBody, hhOKAtTry, hhOKAtGlobal, hhLateOK, hhOKPlusExtra, hhOKThenExtra, hhOKConnClose, hhOKSplit, hhOKThenClose:
+	case hhOK, hhOKNoBody, hhOKAtTry, hhOKAtGlobal, hhLateOK, hhOKPlusExtra, hhOKThenExtra, hhOKConnClose, hhOKSplit, hhOKThenClose, hhUnknownOK:
 		return []int{hhOKStatus(i)}
 	case hhErr:
 		return []int{hhErrStatus(i)}
@@ -170,12 +189,16 @@ func c03hCheck(sc *hhScenario, obs *hhObs, r *vrt.Result, report func(kind, deta
 		if d.Garbage != "" {
 			report("undecodable bytes written downstream", fmt.Sprintf("connection %d: %s", ci, d.Garbage))
 		}
-		if len(d.Responses) > len(d.Sent) {
-			report("more than one response for one request", fmt.Sprintf("connection %d: %d requests sent, %d responses: %v", ci, len(d.Sent), len(d.Responses), d.Responses))
+		if len(d.Orphans) > 0 {
+			report("more than one response for one request", fmt.Sprintf("connection %d: %d requests sent, responses that answer none of them: %v (all: %v)", ci, len(d.Sent), d.Orphans, d.Responses))
 		}
 		for k, i := range d.Sent {
 			rq := sc.Requests[i]
-			if k >= len(d.Responses) {
+			if len(d.Answers[k]) > 1 {
+				report("more than one response for one request", fmt.Sprintf("connection %d, request %s: %v", ci, rq.Token, d.Answers[k]))
+				continue
+			}
+			if len(d.Answers[k]) == 0 {
 				// root-cause class = what the request's goroutine is doing + the stream's internal state
 				w := "worker goroutine exited"
 				if len(reqBlocked) > 0 {
@@ -206,7 +229,15 @@ func c03hCheck(sc *hhScenario, obs *hhObs, r *vrt.Result, report func(kind, deta
 				report(what+": "+w+"; "+sig, detail)
 				continue
 			}
-			f := d.Responses[k]
+			f := d.Answers[k][0]
+			if f.Ctl != "" {
+				// HTTP/2: MOSN reset the stream instead of answering
+				if !d.ByClient {
+					silent = true
+					report("stream reset by MOSN without a response (client did not disconnect)", fmt.Sprintf("scenario %s, request %s on connection %d: %s; log=%v", sc.Name, rq.Token, ci, f.String(), obs.Log))
+				}
+				continue
+			}
 			allowed := map[int]bool{}
 			n := obs.Attempts[rq.Token]
 			switch {
@@ -250,8 +281,8 @@ func c03hCheck(sc *hhScenario, obs *hhObs, r *vrt.Result, report func(kind, deta
 			// (HTTP/1 handles the requests of a connection one after the other: a pipelined request's
 			// time starts when its predecessor has been answered)
 			start := d.SentAtMs[k]
-			if k > 0 && d.Responses[k-1].AtMs > start {
-				start = d.Responses[k-1].AtMs
+			if k > 0 && sc.Proto != "Http2" && len(d.Answers[k-1]) > 0 && d.Answers[k-1][0].AtMs > start {
+				start = d.Answers[k-1][0].AtMs
 			}
 			if lim := c03hTimeBound(sc); lim > 0 && f.AtMs-start > lim {
 				report("response later than the route timeout plus every retry cycle that could still run", fmt.Sprintf("request %s handed to MOSN at %dms, answered at %dms, bound %dms: %s", rq.Token, start, f.AtMs, lim, f.String()))
@@ -366,7 +397,14 @@ func c03hRunScenario(p *vreport.Part, sc hhScenario, replay bool, deadline time.
 }
 
 func TestVerifH1C03Terminal(t *testing.T) {
-	const part = "http1-terminal-outcome-interleavings"
+	c03hMain("http1-terminal-outcome-interleavings", "Http1")
+}
+
+func TestVerifH2C03Terminal(t *testing.T) {
+	c03hMain("http2-terminal-outcome-interleavings", "Http2")
+}
+
+func c03hMain(part, proto string) {
 	budget := time.Duration(vreport.Pick(600, 3000)) * time.Second // safety net per scenario, not a coverage bound
 	p := vreport.Begin("C03", part, budget+time.Minute)
 	var rc hhScenario
@@ -377,7 +415,7 @@ func TestVerifH1C03Terminal(t *testing.T) {
 		}
 		return
 	}
-	scs := c03hScenarios()
+	scs := c03hScenarios(proto)
 	si, sn := vreport.Shard()
 	complete := true
 	n := 0
@@ -423,6 +461,6 @@ func TestVerifH1C03Terminal(t *testing.T) {
 		}
 	}
 	p.Note("scenarios", n)
-	p.End(complete, fmt.Sprintf("%d HTTP/1.1 scenarios (this shard), all schedules of workers / server and client serve goroutines / timers / clients / upstream peers with <=%d deviations from the default scheduler (delay bounding; safety cap %d executions per scenario); %d core scenarios additionally with <=%d deviations, first %d executions in DFS order (not exhaustive); timers fire in virtual-deadline order", n, bound, capFull, deep, bound+1, capDeep),
-		"scenario grid {GET,POST+body}x{retry policy}x{per-try timeout}x{per-attempt upstream script: ok, 5xx, close, silent}x{client disconnect: none, after sending, after the request reached an upstream} + connect failures, send failure, no route/no host/unhealthy, overflow, split / truncated / Connection: close replies, replies racing the timers, keep-alive and pipelined second requests; one evaluation = one complete execution of the real proxy + HTTP/1 stream and pool code under one schedule; distinct = distinct (scenario, downstream responses, upstream attempts, peer actions)")
+	p.End(complete, fmt.Sprintf("%d "+proto+" scenarios (this shard), all schedules of workers / stream connection goroutines / timers / clients / upstream peers with <=%d deviations from the default scheduler (delay bounding; safety cap %d executions per scenario); %d core scenarios additionally with <=%d deviations, first %d executions in DFS order (not exhaustive); timers fire in virtual-deadline order", n, bound, capFull, deep, bound+1, capDeep),
+		"scenario grid {GET,POST+body}x{retry policy}x{per-try timeout}x{per-attempt upstream script: ok, 5xx, close, silent}x{client disconnect: none, after sending, after the request reached an upstream} + connect failures, send failure, no route/no host/unhealthy, overflow, split / truncated / Connection: close replies, replies racing the timers, keep-alive and pipelined / concurrent second requests (HTTP/2: RST_STREAM, replies on finished / unknown streams instead of the Connection: close cases); one evaluation = one complete execution of the real proxy + HTTP stream and pool code under one schedule; distinct = distinct (scenario, downstream responses, upstream attempts, peer actions)")
 }
